@@ -465,3 +465,31 @@ def permutation_exec(f, N):
     if not out or not (isinstance(out[0], tuple) and len(out[0]) == 2 and all(isinstance(x, _Vec) for x in out[0])):
         raise Undecidable('the kernel does not return (strings, phases)')
     return out[0][0].v, out[0][1].v
+
+
+def check_unique_scatter(run, f, rule='R13.unique'):
+    """`u, first = unique(A, return_index=True)` gives, for every distinct item, the position of its FIRST occurrence.  Storing
+    per-item results back through `first` (`out[first] = ...`) fills only those positions: every repeated item keeps the initial
+    value.  Results per distinct item are spread over the original order with the inverse index (return_inverse)."""
+    n = 0
+    for st, ctx in walk(f.node):
+        if not (isinstance(st, ast.Assign) and isinstance(st.value, ast.Call) and norm(st.value.func).split('.')[-1] == 'unique'
+                and isinstance(st.targets[0], ast.Tuple)):
+            continue
+        kws = [k.arg for k in st.value.keywords if getattr(k.value, 'value', None) is True and k.arg in ('return_index', 'return_inverse', 'return_counts')]
+        order = [k for k in ('return_index', 'return_inverse', 'return_counts') if k in kws]
+        if 'return_index' not in order or len(st.targets[0].elts) != 1 + len(order):
+            continue
+        t = st.targets[0].elts[1 + order.index('return_index')]
+        if not isinstance(t, ast.Name):
+            continue
+        n += 1
+        bad = None
+        for s2, _ in walk(f.node):
+            if isinstance(s2, (ast.Assign, ast.AugAssign)):
+                for tg in (s2.targets if isinstance(s2, ast.Assign) else [s2.target]):
+                    if isinstance(tg, ast.Subscript) and any(isinstance(x, ast.Name) and x.id == t.id for x in ast.walk(tg.slice)):
+                        bad = s2
+        run.check(bad is None, rule, f, bad if bad is not None else st, 'results per distinct item are stored back through the first-occurrence index `%s` of unique(): '
+                  'every repeated item keeps its initial value (the inverse index spreads them over all occurrences)' % t.id)
+    return n
